@@ -8,6 +8,7 @@ import (
 	"runtime"
 	"strings"
 	"testing"
+	"time"
 
 	ike "github.com/free5gc/ike"
 	"github.com/free5gc/ike/eap"
@@ -932,6 +933,12 @@ type c04RetainIn struct {
 
 var c04Retention = probe.Define("C04", "retention", func(t *rapid.T) c04RetainIn { panic("enumerated") }, func(in c04RetainIn) probe.Outcome {
 	h := model.Header{ISPI: 1, RSPI: 2, Major: 2, Exchange: 34, Flags: 8}
+	floodSuite := bridge.SuiteSel{Encr: 1, Integ: 2}
+	floodKeys := *fuzzKeysFor(floodSuite)
+	floodSA, err := bridge.NewSA(floodSuite, floodKeys)
+	if err != nil {
+		return probe.Fail("HARNESS: %v", err)
+	}
 	live := func() uint64 {
 		runtime.GC()
 		runtime.GC()
@@ -960,17 +967,51 @@ var c04Retention = probe.Define("C04", "retention", func(t *rapid.T) c04RetainIn
 			if err := probe.Try(func() error { return new(message.IKEMessage).Decode(w) }); err != nil {
 				return err
 			}
+			// ... and datagrams that are REFUSED: the same message protected, with one bit of the checksum or of the ciphertext
+			// flipped (refused after the checksum was computed), and a truncated plain datagram
+			if i%4 == 0 {
+				pm := model.Message{Header: m.Header, Payloads: m.Payloads[1:4]}
+				pw, err := refProtect(pm, floodSuite, floodKeys, true, big[:16], -1, nil)
+				if err != nil {
+					return err
+				}
+				pw[len(pw)-1-i%40] ^= 1 << uint(i%8)
+				if _, err := libUnprotect(pw, floodSA, false, i%8 == 0); err == nil {
+					return fmt.Errorf("a protected message with a flipped bit was accepted")
+				} else if probe.IsPanic(err) {
+					return err
+				}
+				if err := probe.Try(func() error { return new(message.IKEMessage).Decode(w[:len(w)-1-i%50]) }); probe.IsPanic(err) {
+					return err
+				}
+			}
 		}
 		return nil
+	}
+	settle := func() int {
+		n := runtime.NumGoroutine()
+		for i := 0; i < 200; i++ {
+			runtime.Gosched()
+			time.Sleep(time.Millisecond)
+			if m := runtime.NumGoroutine(); m < n {
+				n = m
+			} else if i > 20 {
+				break
+			}
+		}
+		return n
 	}
 	if err := flood(1); err != nil { // warm-up: whatever is initialised once is initialised now
 		return probe.Fail("HARNESS: %v", err)
 	}
-	before := live()
+	before, gBefore := live(), settle()
 	if err := flood(2); err != nil {
 		return probe.Fail("HARNESS: %v", err)
 	}
-	after := live()
+	after, gAfter := live(), settle()
+	if gAfter > gBefore+8 {
+		return probe.Fail("%d goroutines are still running after %d datagrams (a quarter of them refused) were handled, %d before: handling a datagram leaves a goroutine behind", gAfter, in.N, gBefore)
+	}
 	if after > before+4<<20 {
 		return probe.Fail("decoding %d different datagrams (about %d KiB in all) and dropping the results left %d KiB more live heap than before: the library keeps what it decodes",
 			in.N, in.N*11/10, (after-before)>>10)
